@@ -136,6 +136,21 @@ theorem tree_eq (ctx : Ctx) (d : Node) (kids sibs : Forest) (hok : ForestOK ctx 
       treeAll ctx fuel (Tree.new (encode (.node d kids sibs) ++ tail) off) = (es, .ok ()) :=
   treeAll_unit ctx d kids sibs hok tail off fuel hfuel
 
+/-- **`tree_next_skips_subtree`**: the tree's `DW_AT_sibling` fast path. When the caller did not
+iterate (all of) an entry's children and asks the parent's iterator for the next child,
+`EntriesTree::next` passes over the rest of the subtree — by reading it, or by jumping through a
+usable `DW_AT_sibling` — and ends on the entry's next sibling (`true`) or on the end of the
+list (`false`), at the same depth. (`TagsOK`: no declaration has the null tag, which
+`Abbreviation::parse` guarantees.) -/
+theorem tree_next_skips_subtree (ctx : Ctx) (htags : TagsOK ctx) (d : Node) (kids sibs : Forest)
+    (hok : ForestOK ctx (.node d kids sibs)) (off : Nat) (hsib : SibOK ctx off (.node d kids sibs)) (D : Int)
+    (tail : Bytes) (htail : tail = [] ∨ ∃ t, tail = 0 :: t) (t : Tree)
+    (hc : PosAt ctx ⟨t.raw, t.entry⟩ off D tail (.node d kids sibs)) :
+    ∃ c', PosAt ctx c' (if d.children then off + (headBytes d).length + (encode kids).length + 1
+                        else off + (headBytes d).length) D tail sibs ∧
+      t.next ctx D = .ok (c'.current.isSome, Tree.mk t.root c'.raw c'.cur) :=
+  treeNext_skips_subtree ctx htags d kids sibs hok off hsib D tail htail t hc
+
 /-- the children iterator at any level: a complete traversal of a child list reports exactly its
 entries and leaves the tree on the list's terminating null entry -/
 theorem tree_children_eq (ctx : Ctx) (g : Forest) (hok : ForestOK ctx g) (off : Nat) (D : Int) (rest : Bytes)
